@@ -179,6 +179,22 @@ func c06Generated() []c06Case {
 					},
 					data: d, want: want,
 				})
+				// ... and by a page that names NO layout and gets the default one (layouts/base.vuego), with and without a front-matter block
+				for di, fm := range []string{"", "---\ntitle: t\n---\n"} {
+					if (ui+di)%2 == 0 {
+						out = append(out, c06Case{
+							desc: fmt.Sprintf("gen-via-default-layout%d use%d/%s/%s", di, ui, ct.name, recv.expr),
+							files: map[string]string{
+								"p.vuego":            fm + "<template " + recv.attr + ">" + ct.src(recv.expr) + "</template>\n",
+								"layouts/base.vuego": `<article><template include="c.vuego"></template></article>`,
+								"c.vuego":            u.comp,
+								"leaf.vuego":         `<i>/{{ label }}/</i>`,
+								"wrap.vuego":         `<q>{<slot></slot>}</q>`,
+							},
+							data: d, want: want,
+						})
+					}
+				}
 				out = append(out, c06Case{
 					desc: fmt.Sprintf("gen use%d/%s/%s", ui, ct.name, recv.expr),
 					files: map[string]string{
